@@ -7,6 +7,10 @@ import HawkModel.Drv.Cmp
 import HawkModel.Drv.StrFn
 import HawkModel.Drv.Utf8
 import HawkModel.Drv.Rec
+import HawkModel.Drv.Gc
+import HawkModel.Drv.Depth
+import HawkModel.Drv.Oom
+import HawkModel.Drv.Sed
 
 def main (args : List String) : IO UInt32 := do
   match args with
@@ -19,4 +23,8 @@ def main (args : List String) : IO UInt32 := do
   | "strfn" :: _ => Hawk.Drv.StrFn.main; return 0
   | "utf8" :: _ => Hawk.Drv.Utf8.main; return 0
   | "rec" :: _ => Hawk.Drv.Rec.main; return 0
+  | "gc" :: _ => Hawk.Drv.Gc.main; return 0
+  | "depth" :: _ => Hawk.Drv.Depth.main; return 0
+  | "oom" :: _ => Hawk.Drv.Oom.main; return 0
+  | "sed" :: _ => Hawk.Drv.Sed.main; return 0
   | _ => IO.eprintln "usage: hawkdrv <area>"; return 2
